@@ -167,6 +167,11 @@ def describe(entry):
     return desc, set(ids), order
 
 
+def F_reach(node):
+    """identity set of everything reachable from `node` (what one copied tree consists of)"""
+    return frozenset(describe(node)[1])
+
+
 def inv_ok(order):
     for o in order:
         for c in o.children:
@@ -205,6 +210,26 @@ def impl(case):
         d0, ids0, order0 = describe(entry)
         reach_sets.append(sorted(lab_by_id[i] for i in ids0))
         verdict = {"entry": e, "ok": True, "why": []}
+        # two nodes of one tree copied in ONE operation (a container holding both; a shared memo) end up in one copied tree,
+        # and an attribute value that cannot be pickled but can be copied (a function) does not stop deepcopy
+        if len(order0) >= 2:
+            other = order0[-1]
+            try:
+                pair = copy.deepcopy([entry, other])
+                if not F_reach(pair[1]) <= F_reach(pair[0]):
+                    verdict["ok"] = False
+                    verdict["why"].append(["deepcopy-pair", None, "two nodes of one tree copied into two trees"])
+                memo = {}
+                a = copy.deepcopy(entry, memo)
+                b = copy.deepcopy(other, memo)
+                if not F_reach(b) <= F_reach(a):
+                    verdict["ok"] = False
+                    verdict["why"].append(["deepcopy-memo", None, "a shared memo gave two trees"])
+            except RecursionError:
+                pass
+            except Exception as ex:
+                verdict["ok"] = False
+                verdict["why"].append(["deepcopy-pair", None, type(ex).__name__])
         methods = [("deepcopy", None)] + [("pickle", p) for p in range(0, pickle.HIGHEST_PROTOCOL + 1)]
         for how, proto in methods:
             if how == "pickle" and has_slots and proto < 2:
